@@ -1847,6 +1847,23 @@ def install_numpy_models(interp):
             return to_obj_array([[truediv(A[1, 1], det), truediv(-A[0, 1], det)], [truediv(-A[1, 0], det), truediv(A[0, 0], det)]])
         raise Unsupported("matrix inverse beyond 2x2")
     register_model(np.linalg.inv, n_inv)
+
+    def n_det(interp, A):
+        A = to_obj_array(A)
+        if A.ndim != 2 or A.shape[0] != A.shape[1]:
+            raise PyRaise("LinAlgError", "Last 2 dimensions of the array must be square")
+        n = A.shape[0]
+        if n == 0:
+            return 1.0
+        if n == 1:
+            return A[0, 0]
+        if n == 2:
+            return sub(mul(A[0, 0], A[1, 1]), mul(A[0, 1], A[1, 0]))
+        if n == 3:
+            cof = lambda i, j, k, l: sub(mul(A[1, i], A[2, j]), mul(A[1, k], A[2, l]))
+            return add(sub(mul(A[0, 0], cof(1, 2, 2, 1)), mul(A[0, 1], cof(0, 2, 2, 0))), mul(A[0, 2], cof(0, 1, 1, 0)))
+        raise Unsupported("determinant beyond 3x3")
+    register_model(np.linalg.det, n_det)
     register_model(np.absolute, elementwise(abs))
     register_model(np.dot, lambda interp, a, b, **kw: _decay(np_matmul(to_obj_array(a), to_obj_array(b))) if (to_obj_array(a).ndim and to_obj_array(b).ndim) else mul(a, b))
 
